@@ -168,3 +168,33 @@ PROPS = {
                      "the 10 s bound is a hang detector (the only wall-clock oracle), three orders of magnitude above normal"],
     ),
 }
+
+# What the mutant waves added (DESIGN.md section 16.5); appended to the rules so that evidence files say what ran.
+TREE_EXTRA = ("Store kinds: memory, level(mem,mem), level(mem,persistent), persistent, and level(persistent,persistent) = what a rebase "
+              "after a save produces. Path lengths up to 256 hex characters. 1 in 500 runs stores values 0-700 bytes (biased to the last dozen) "
+              "below util.MPTMaxAllowableNodeSize, the largest value Insert accepts.")
+ROUND_EXTRA = ("1 in 120 runs has one round that inserts 200-500 keys (more nodes than the 256-node batch size); 1 in 15 runs uses sparse round "
+               "numbers whose low bits repeat (jumps of 2^16 / 2^32 / 2^48); 1 in 10 rounds contains a 'sync': the complete state of the previous "
+               "round is merged into the block's trie from a separate store (MergeDB back to the previous root).")
+CACHE_EXTRA = ("Value kinds: mutable byte values, trie nodes (C07), and the package's immutable statecache.String (1 in 5 runs); 1 in 8 runs draws "
+               "values from a domain of three so that blocks rewrite their parent's value. Profiles besides the short block trees: deep chains "
+               "(22-190 blocks, a key changes about once in 8-48 blocks, values and tombstones, lookups repeated through state / query / block / "
+               "transaction caches; 1 in 25 runs), big blocks (300-100000 keys in one block on top of a parent, then first-touch writes and removals; "
+               "1 in 250 runs; below the key capacity 100*1024 because beyond it which keys an overfull commit evicts follows Go map order inside the "
+               "code under test).")
+ADDENDA = {
+    "C01": TREE_EXTRA, "C02": TREE_EXTRA, "C03": TREE_EXTRA, "C14": TREE_EXTRA, "C17": TREE_EXTRA,
+    "C04": ROUND_EXTRA, "C05": ROUND_EXTRA,
+    "C06": CACHE_EXTRA + " Long chains (1 in 40 runs) write through block caches and transactions (set, remove, set-and-remove) and read at the tip as well.",
+    "C07": CACHE_EXTRA,
+    "C08": "1 in 12 runs starts from a committed chain of 200-215 blocks that all wrote k0 (the 200-entry per-key version table is full), with the concurrent lookups near the tip.",
+    "C09": "Value lengths 1-8 bytes, and 31-1000 bytes with the distinguishing bytes at the end (1 in 6 values); 1 in 120 runs commits 150-450 keys at once.",
+    "C10": "1 in 6 runs a key owner stores a value that embeds the hash of a value node of their choosing (as its last 32 bytes, or as the first of sixteen 32-byte slots); tamperings additionally: 'retype' (an inner node presented as a value node) and 'leafas' (a leaf presented as a short node or branch, with the chosen node appended below the end of the key path).",
+    "C11": "Half of the non-collapsing (level 64) commits hold their batch back: it is written only after the next Commit() has run, in order (Commit hands the batch to the caller). 1 in 120 runs commits 150-450 keys at once.",
+    "C12": "1 in 120 runs has 150-450 keys; 1 in 3000 runs exports every key of a trie with 56000-70000 keys (more than 2^17 nodes).",
+    "C13": "The harness executes every history (further commits and collector passes under an abandoned checkpoint included) and only JUDGES a rollback inside the quantifier's window (exactly one commit, at most one collector pass since the latest SaveRoot). Half of the runs are round-structured: optional SaveRoot, a batch (random changes / return to exactly the checkpoint's content / delete everything / empty), commit, 0-2 collector passes, optional rollback. 1 in 120 runs commits 150-450 keys at once.",
+    "C15": "Message-level operators additionally: pairs.collapse (a whole subtree of a pre-order export replaced by a hash reference claiming the same hash and weight) and pairs.rekind (a node replaced by a node of another kind claiming the same hash).",
+    "C16": "Task operations additionally: a child trie opened on the shared trie, one insert, MergeMPTChanges (atomic put or rejected); MergeDB of a separately built trie (porcupine 'setall'); Validate/GetNodeDB/GetVersion; SaveChanges with an already cancelled context, after which the task waits for the abandoned writer goroutine through a pipe the race detector cannot see (simrt.Opaque) and goes on.",
+}
+for _k, _t in ADDENDA.items():
+    PROPS[_k]["rule"] = PROPS[_k]["rule"] + " " + _t
